@@ -164,7 +164,7 @@ func registerIntrinsics(e *Engine) {
 		m := st.obj(p.Obj).Cells[p.Off].(MapRef)
 		if m.Obj == 0 {
 			id := e.newObjID(st, th, "sync.Map")
-			st.Heap[id] = &Object{Kind: OMap, Site: "sync.Map", ep: st.ep}
+			st.setObj(id, &Object{Kind: OMap, Site: "sync.Map", ep: st.ep})
 			m = MapRef{id}
 			st.objW(p.Obj).Cells[p.Off] = m
 		}
@@ -359,7 +359,7 @@ func registerIntrinsics(e *Engine) {
 		for i, p := range parts {
 			cells[i] = term.StrC(p)
 		}
-		st.Heap[id] = &Object{Kind: OMem, Cells: cells, ep: st.ep}
+		st.setObj(id, &Object{Kind: OMem, Cells: cells, ep: st.ep})
 		return Slice{Obj: id, Len: len(parts), Cap: len(parts)}
 	}
 	I["strings.Join"] = func(e *Engine, st *State, th *Thread, fn *ssa.Function, a []Value, in *ssa.Call) Value {
@@ -396,7 +396,7 @@ func registerIntrinsics(e *Engine) {
 }
 
 func typeString(t types.Type) string {
-	return types.TypeString(t, func(p *types.Package) string { return p.Path() })
+	return types.TypeString(t, func(p *types.Package) string { return p.Name() })
 }
 
 func (e *Engine) threadEntryFn(t *Thread) string {
